@@ -38,14 +38,55 @@ func m_WithTimeout(parent context.Context, d time.Duration) (context.Context, co
 	return c, func() { c.cancelled++ }
 }
 
+//vp:model context.WithDeadline
+func m_WithDeadline(parent context.Context, d time.Time) (context.Context, context.CancelFunc) {
+	left := d.Sub(modelEpoch) - time.Duration(vp.Now())
+	c := &hCtx{done: vp.DoneChan(int64(left)), deadline: vp.Now() + int64(left), has: true}
+	return c, func() { c.cancelled++ }
+}
+
+// The wall clock is the model clock, counted from a fixed instant.
+var modelEpoch = time.Unix(1700000000, 0)
+
+//vp:model time.Now
+func m_Now() time.Time { return modelEpoch.Add(time.Duration(vp.Now())) }
+
+//vp:model time.Since
+func m_Since(t time.Time) time.Duration { return m_Now().Sub(t) }
+
+//vp:model time.Until
+func m_Until(t time.Time) time.Duration { return t.Sub(m_Now()) }
+
 //vp:model time.After
 func m_After(d time.Duration) <-chan time.Time { return vp.TimerChan(int64(d)) }
+
+// The other ways of waiting the standard library offers, should the code under test use them.
+//
+//vp:model time.NewTimer
+func m_NewTimer(d time.Duration) *time.Timer { return &time.Timer{C: vp.TimerChan(int64(d))} }
+
+//vp:model (*time.Timer).Stop
+func m_TimerStop(t *time.Timer) bool { return true }
+
+//vp:model (*time.Timer).Reset
+func m_TimerReset(t *time.Timer, d time.Duration) bool {
+	t.C = vp.TimerChan(int64(d))
+	return true
+}
+
+//vp:model time.Sleep
+func m_Sleep(d time.Duration) {
+	if d > 0 {
+		vp.Advance(int64(d))
+	}
+}
 
 const maxCalls = 48
 
 // hGetter is the wrapped getter: every call takes an arbitrary time >= 0 and
 // fails or succeeds as the inputs say.
 type hGetter struct {
+	instant    bool // every call takes no time (long-run harness)
 	calls      int
 	start, end [maxCalls]int64
 	okAt       int
@@ -61,10 +102,12 @@ func (g *hGetter) Get(url string) (map[string][]string, []byte, error) {
 	if i < maxCalls {
 		g.start[i] = vp.Now()
 	}
-	d := vp.I64("call_duration")
-	vp.Assume(d >= 0)
-	vp.Assume(d <= int64(1000*time.Hour))
-	vp.Advance(d)
+	if !g.instant {
+		d := vp.I64("call_duration")
+		vp.Assume(d >= 0)
+		vp.Assume(d <= int64(1000*time.Hour))
+		vp.Advance(d)
+	}
 	if i < maxCalls {
 		g.end[i] = vp.Now()
 	}
@@ -134,4 +177,74 @@ func H20c_Default() {
 		_, simple := d.Getter.(*SimpleHTTPSGetter)
 		vp.Assert("default-config", vp.And(d.Timeout == 2*time.Minute, d.MaxRetryDelay == 30*time.Second, simple))
 	}
+}
+
+// H20d: many attempts. A small maximum delay (1..1000 ns) and a timeout that allows up to 38 waits,
+// calls that take no time: the waiting discipline must hold on the 33rd, 34th, ... wait as on the first
+// (a back-off computed by shifting wraps around there).
+func H20d_ManyAttempts() {
+	const K = 40
+	vp.Unwind(4 * K)
+	maxDelay := vp.I64("maxRetryDelay")
+	vp.Assume(maxDelay >= 1)
+	vp.Assume(maxDelay <= 1000)
+	waits := vp.I64("waits_allowed")
+	vp.Assume(waits >= 0)
+	vp.Assume(waits <= K-2)
+	timeout := waits*maxDelay + vp.I64("slack")%1 // exactly waits * maxDelay
+	g := &hGetter{okAt: -1, instant: true}
+	r := &RetryHTTPSGetter{Timeout: time.Duration(timeout), MaxRetryDelay: time.Duration(maxDelay), Getter: g}
+	t0 := vp.Now()
+	_, _, err := r.Get("https://example/collateral")
+	t1 := vp.Now()
+	vp.Assert("attempts-bounded", g.calls <= K)
+	vp.Reach("more-than-34-attempts", g.calls > 34)
+	vp.Reach("gives-up-after-many-attempts", vp.And(err != nil, g.calls > 34))
+	if err != nil {
+		vp.Assert("gives-up-by-the-deadline", t1 <= t0+timeout)
+	}
+	for i := 1; i < g.calls && i < maxCalls; i++ {
+		wait := g.start[i] - g.end[i-1]
+		vp.Assert("wait-not-longer-than-max-retry-delay", wait <= maxDelay)
+		vp.Assert("no-busy-loop", wait > 0)
+	}
+}
+
+// H20e: history. A getter value that was used before (any outcome, any time ago) treats the next
+// request like a fresh getter: it retries, and returns a success that comes within the timeout.
+func H20e_ReusedGetter() {
+	vp.Unwind(24)
+	timeout := vp.I64("timeout")
+	vp.Assume(timeout >= int64(20*time.Second))
+	vp.Assume(timeout <= int64(100*time.Hour))
+	maxDelay := vp.I64("maxRetryDelay")
+	vp.Assume(maxDelay >= int64(time.Second))
+	vp.Assume(maxDelay <= int64(4*time.Second))
+	g1 := &scriptGetter{failures: vp.Choose("firstFailures", 2)}
+	r := &RetryHTTPSGetter{Timeout: time.Duration(timeout), MaxRetryDelay: time.Duration(maxDelay), Getter: g1}
+	// first use: succeeds at once or after one retry
+	_, _, err1 := r.Get("https://example/first")
+	vp.Assert("first-use-succeeds", err1 == nil)
+	// any amount of time passes
+	idle := vp.I64("idle")
+	vp.Assume(idle >= 0)
+	vp.Assume(idle <= int64(1000*time.Hour))
+	vp.Advance(idle)
+	// second use: two failures, then success - 3 attempts, at most 2 * 4 s of waiting, well inside the timeout
+	g2 := &scriptGetter{failures: 2}
+	r.Getter = g2
+	_, body, err2 := r.Get("https://example/second")
+	vp.Reach("second-request-after-the-first-deadline", idle > timeout)
+	vp.Assert("a-used-getter-still-retries", err2 == nil && g2.calls == 3)
+	vp.Assert("a-used-getter-returns-the-response", err2 != nil || len(body) == 1)
+}
+
+type scriptGetter struct{ failures, calls int }
+
+func (g *scriptGetter) Get(url string) (map[string][]string, []byte, error) {
+	g.calls++
+	if g.calls <= g.failures {
+		return nil, nil, errGet
+	}
+	return map[string][]string{}, []byte{7}, nil
 }
